@@ -96,7 +96,7 @@ class Stub:
 
 
 def _worker(payload):
-    backend, orders = payload
+    backend, orders = payload[:2]
     from .. import storedrv as D
     import nostr_relay.dynamic_lists as dl
     from nostr_relay.config import Config
@@ -157,7 +157,8 @@ class _Quiet:
 
 def run_into(out, tier, seed):
     rnd = random.Random(seed)
-    design = tlc.DesignCheck([("MC_DynLists", "MC_DynLists_repaired.cfg", "DynLists/repaired")], workers=2, timeout=600)
+    design = tlc.DesignCheck([("MC_DynLists", "MC_DynLists_repaired.cfg", "DynLists/repaired"),
+                              ("MC_DynLists", "MC_DynLists_repaired_nostatic.cfg", "DynLists/repaired-no-static-keys")], workers=2, timeout=600)
     uni = Universe(list_universe())
     syms = [d["sym"] for d in list_universe()]
     orders = [syms, list(reversed(syms))]
@@ -166,14 +167,23 @@ def run_into(out, tier, seed):
         rnd.shuffle(o)
         orders.append(o[: rnd.randint(2, len(o))])
     payloads = [(b, orders[k:k + 3]) for b in ("sql", "lmdb") for k in range(0, len(orders), 3)]
-    cfg = {"dynamic_lists": {"allow_list_queries": [uni.conc_filter(ALLOW_QUERY)], "check_interval": 7200},
-           "service_privatekey": C.SECRETS["S"], "pubkey_whitelist": [C.pubkey("D")]}
-    results = pool.map_in_workers("harness.checks.dynlists", "_worker", payloads, config=cfg)
-    traces = [tr for res in results for tr in res]
-    defs = {"TD_Universe": uni.tla_universe(), "TD_OneCharNames": set(uni.one_char_names()), "TD_Keys": set(KEYS), "TD_Static": set(STATIC),
-            "TD_AllowQuery": abs_filter_tla(ALLOW_QUERY)}
-    verdicts, vstats = tracedata.validate("DynLists_Trace", defs, traces, batch=10)
-    out.add_model(vstats)
+    traces = []
+    verdicts = {}
+    # two configurations: with preconfigured keys (service key + pubkey_whitelist) and without any (then consecutive lists
+    # can be disjoint and only the order of the two set operations keeps the shared set from being empty in between)
+    for static in (STATIC, []):
+        cfg = {"dynamic_lists": {"allow_list_queries": [uni.conc_filter(ALLOW_QUERY)], "check_interval": 7200}}
+        if static:
+            cfg.update({"service_privatekey": C.SECRETS["S"], "pubkey_whitelist": [C.pubkey("D")]})
+        results = pool.map_in_workers("harness.checks.dynlists", "_worker", payloads, config=cfg)
+        part = [tr for res in results for tr in res]
+        defs = {"TD_Universe": uni.tla_universe(), "TD_OneCharNames": set(uni.one_char_names()), "TD_Keys": set(KEYS), "TD_Static": set(static),
+                "TD_AllowQuery": abs_filter_tla(ALLOW_QUERY)}
+        v, vstats = tracedata.validate("DynLists_Trace", defs, part, batch=10)
+        out.add_model(vstats)
+        for k in range(len(part)):
+            verdicts[len(traces) + k] = v[k]
+        traces += part
     nontrivial = 0
     for k, tr in enumerate(traces):
         out.cov["traces_validated_against_impl"] += 1
